@@ -476,7 +476,14 @@ func (r *Runner) entReqs(b *Base, op Op) []entReq {
 		if er.dom == "" {
 			er.dom = defaultDom(op.Kind)
 		}
-		er.domain = domainBytes(er.dom, 0x5a)
+		// the 28 bytes after the domain type (fork version / genesis root part) differ between the entries of a batch - as in a batch that
+		// spans a fork boundary - except that every third entry shares them with entry 0; the rules look at the type only, the
+		// signature of entry i must be over ITS domain
+		salt := byte(0x5a)
+		if len(op.Ents) > 1 && i%3 != 0 {
+			salt += byte(i % 3)
+		}
+		er.domain = domainBytes(er.dom, salt)
 		if strings.HasPrefix(er.dom, "shift") {
 			// "shiftK:cls": the data field is K bytes short, the domain field K bytes long; together they are the 32-byte root
 			// followed by a 32-byte domain of class cls
